@@ -29,7 +29,10 @@ def norm(shape):
         name = shape[1]
         name = {"execute": "execute*", "execute_seq": "execute*", "dispatch_par": "dispatch*", "dispatch_seq": "dispatch*"}.get(name, name)
         return ("call", name)
-    return (head, norm(shape[1]))
+    inner = norm(shape[1])
+    if head == "for" and inner and inner[0] == "for":
+        return inner  # a loop over groups of a loop over members is the flattened sequence of members
+    return (head, inner)
 
 
 def skeletons(ctx, facts, config):
